@@ -391,6 +391,10 @@ class Body:
                 if isinstance(e, list) and e[0] == 'field':
                     v.extra.setdefault('last_owner', e[3])
                     break
+            else:
+                sb = strip(base)
+                if sb.kind == 'ref' and sb.extra.get('last_owner'):
+                    v.extra.setdefault('last_owner', sb.extra['last_owner'])
         return v
 
     def _path(self, proj, cur, pt):
@@ -487,7 +491,17 @@ class Body:
             pl = rv['place']
             base = self._read_local(pl['l'], cur, pt)
             path = self._path(pl['p'], cur, pt)
-            return self.mk_ref(base, path, rv.get('mut', False), ty, pt, span)
+            r = self.mk_ref(base, path, rv.get('mut', False), ty, pt, span)
+            if r.kind == 'ref':
+                # owner of the last field the reference designates (reads / writes through the reference inherit it)
+                for e in reversed(pl['p']):
+                    if isinstance(e, list) and e[0] == 'field':
+                        r.extra.setdefault('last_owner', e[3])
+                        break
+                else:
+                    if strip(base).kind == 'ref' and strip(base).extra.get('last_owner'):
+                        r.extra.setdefault('last_owner', strip(base).extra['last_owner'])
+            return r
         if k == 'bin':
             return self.new('bin', (rv['op'], self._operand(rv['a'], cur, pt, span), self._operand(rv['b'], cur, pt, span)), ty=ty, point=pt, span=span)
         if k == 'un':
@@ -527,6 +541,10 @@ class Body:
                 if isinstance(e, list) and e[0] == 'field':
                     st.owner = e[3]
                     break
+            else:
+                sb = strip(base)
+                if sb.kind == 'ref' and sb.extra.get('last_owner'):
+                    st.owner = sb.extra['last_owner']
             self.stores.append(st)
             self.stmt_vals[pt] = v
             return
